@@ -168,6 +168,15 @@ static bool sha1crypt_cannot_fit(const std::string &s) {
   return 6 + d + 1 + sl + 1 + 28 + 1 > CRYPT_OUTPUT_SIZE;
 }
 
+// hashes.conf lists two prefixes that do not end in '$': "$sha1" and "$md5".  crypt(5) gives the formats
+// \$sha1\$... and \$md5(,rounds=N)?\$...; anything else behind those letters ("$sha1crypt$..", "$md5x$..") names no
+// method at all - an unknown method in the statement's words - and must fail.
+static bool open_prefix_tag_unknown(const std::string &s) {
+  if (!s.compare(0, 5, "$sha1")) return s.size() == 5 || s[5] != '$';
+  if (!s.compare(0, 4, "$md5")) return s.size() == 4 || (s[4] != '$' && s[4] != ',');
+  return false;
+}
+
 // ================================================================= pattern set (C09)
 static inline uint64_t ld64(const void *p) { uint64_t v; memcpy(&v, p, 8); return v; }
 static inline uint64_t mixh(uint64_t x) { x *= 0x9e3779b97f4a7c15ULL; return x ^ (x >> 29); }
@@ -618,7 +627,9 @@ static OpFaultView fault_view(int t) {
     bool made_good = false;
     if (rq[a].kind == RQ_MMAP && rq[a].hugetlb)
       for (size_t b = a + 1; b < rq.size(); b++)
-        if (rq[b].kind == RQ_MMAP && !rq[b].hugetlb && !rq[b].failed && rq[b].size <= rq[a].size && rq[b].size + (2u << 20) > rq[a].size) { made_good = true; break; }
+        // (the retry may itself use huge pages of another size; a length rounded up to a multiple of the page size H is
+        // below size + H, hence at most twice the size for any region the attempt makes sense for)
+        if (rq[b].kind == RQ_MMAP && !rq[b].failed && rq[b].size <= rq[a].size && rq[a].size <= 2 * rq[b].size + (2u << 20)) { made_good = true; break; }
     if (rq[a].injected) v.injected++;
     if (made_good) { v.hugetlb_fallbacks++; continue; }
     v.effective++;
@@ -841,7 +852,7 @@ static void exec_hash(Run &r, int t, int i, const J &op) {
                    // classes the statement itself names, decided from the actual argument (never from a label):
                    // '$'-introduced prefix that hashes.conf does not list as enabled; curated, certainly malformed parameters
                    (!c.setting.null && !c.setting.b.empty() && c.setting.b[0] == '$' && !conf_for_prefix(c.setting.b)) ||
-                   (!c.setting.null && (is_curated_malformed(c.setting.b) || numeric_field_malformed(c.setting.b) || sha1crypt_cannot_fit(c.setting.b)));
+                   (!c.setting.null && (is_curated_malformed(c.setting.b) || numeric_field_malformed(c.setting.b) || sha1crypt_cannot_fit(c.setting.b) || open_prefix_tag_unknown(c.setting.b)));
   // a crypt_ra whose block could not be (re)allocated never reaches the hash
   RefOut exp;
   if (!must_fail) {
@@ -1058,32 +1069,51 @@ static void exec_gensalt(Run &r, int t, int i, const J &op) {
   if (fv.effective > 0) { exp_fail = true; have_exp = true; }
   else if (!rb.null) { exp = RefClient::get().gensalt(prefix, count, rb, nrb, osz); have_exp = true; }
   else if (draws.empty()) { exp_fail = true; have_exp = true; }   // auto-entropy requested, nothing drawn: only failure is legitimate
-  else if (draws.size() == 1) {
-    exp = RefClient::get().gensalt(prefix, count, Bytes(draws.back().bytes), (int)draws.back().bytes.size(), osz); have_exp = true;
-    if (!exp.bad && !failed && !(exp.ok && exp.str == res)) {
-      // The call may draw more than it hands to the method (a pool, a request rounded up): the clause says where the
-      // salt's bytes come from, not that every drawn byte is used.  Accept the salt of any leading or trailing part of
-      // the draw that is at least as long as hashes.conf asks for.  (Only reached when the plain expectation fails.)
-      const HashConf *hc0 = prefix.null ? nullptr : conf_for_prefix(prefix.b);
-      const std::string &all = draws.back().bytes; size_t lo = hc0 && hc0->nrbytes > 0 ? (size_t)hc0->nrbytes : 1;
-      stat("incidental_salt_from_part_of_the_draw_searches");
-      bool found = false;
-      for (int side = 0; side < 2 && !found; side++)
-        for (size_t L = all.size() - 1; L >= lo && L < all.size() && !found; L--) {
-          std::string part = side == 0 ? all.substr(0, L) : all.substr(all.size() - L);
-          RefOut e2 = RefClient::get().gensalt(prefix, count, Bytes(part), (int)L, osz);
-          if (e2.bad) crash_exit("machinery", "refsrv");
-          if (e2.ok && e2.str == res) { exp = e2; found = true; stat("incidental_salt_from_part_of_the_draw"); }
-        }
-    }
-  }
+  else if (op.i("noref")) { stat("gensalt_calls_checked_without_reference"); }   // marathon histories: a draw happened; what it was turned into is not looked at
   else {
-    // several complete draws in one call: legal (the statement only says where the bytes come from).  The salt must
-    // then be derived from one of them or from their concatenation; otherwise we have no expectation.
-    std::string cat; for (auto &d : draws) cat += d.bytes;
-    std::vector<std::string> cands{cat}; for (auto &d : draws) cands.push_back(d.bytes);
-    stat("incidental_multiple_entropy_draws_in_one_call");
-    for (auto &cnd : cands) { RefOut e2 = RefClient::get().gensalt(prefix, count, Bytes(cnd), (int)cnd.size(), osz); if (e2.bad) crash_exit("machinery", "refsrv"); if (e2.ok == !failed && (failed || e2.str == res)) { exp = e2; have_exp = true; break; } }
+    // Everything an OS source delivered during this call, and where it put it.  The clause says where a salt's bytes
+    // come from; it does not say that one request must deliver them all (a tree may loop over short deliveries,
+    // accumulating at buf + filled), nor that every delivered byte is used (a pool, a request rounded up, a discarded
+    // health-check draw).  Candidates for "the bytes the salt was made from": every contiguous run of the final memory
+    // image of the deliveries (later ones overwrite earlier ones), every complete delivery, and all deliveries in
+    // order; for a successful call whose salt matches none of them, also every leading and trailing part of at least
+    // hashes.conf's nrbytes.  If no candidate is that long, nothing complete was delivered: only failure is legitimate.
+    const HashConf *hc0 = prefix.null ? nullptr : conf_for_prefix(prefix.b);
+    size_t need = hc0 && hc0->nrbytes > 0 ? (size_t)hc0->nrbytes : 1;
+    std::vector<std::string> cands;
+    { std::map<uintptr_t, unsigned char> img;
+      for (auto &d : draws) for (size_t q = 0; q < d.bytes.size(); q++) img[(uintptr_t)d.buf + q] = (unsigned char)d.bytes[q];
+      std::string run; uintptr_t prev = 0;
+      for (auto &kv : img) { if (!run.empty() && kv.first != prev + 1) { cands.push_back(run); run.clear(); } run += (char)kv.second; prev = kv.first; }
+      if (!run.empty()) cands.push_back(run);
+      std::stable_sort(cands.begin(), cands.end(), [](const std::string &x, const std::string &y) { return x.size() > y.size(); }); }
+    for (auto &d : draws) if (d.complete) cands.push_back(d.bytes);
+    if (draws.size() > 1) { std::string cat; for (auto &d : draws) cat += d.bytes; cands.push_back(cat); stat("incidental_multiple_entropy_deliveries_in_one_call"); }
+    { std::vector<std::string> u; for (auto &c : cands) if (c.size() >= need && std::find(u.begin(), u.end(), c) == u.end()) u.push_back(c); cands.swap(u); }
+    have_exp = true;
+    if (cands.empty()) { exp_fail = true; stat("probe_call_with_only_partial_deliveries"); }
+    else {
+      bool found = false, first = true;
+      for (auto &c : cands) {
+        RefOut e2 = RefClient::get().gensalt(prefix, count, Bytes(c), (int)c.size(), osz);
+        if (e2.bad) crash_exit("machinery", ("refsrv: " + e2.raw).c_str());
+        if (first) { exp = e2; first = false; }
+        if (failed ? !e2.ok : (e2.ok && e2.str == res)) { exp = e2; found = true; break; }
+      }
+      if (!found && !failed) {
+        stat("incidental_salt_from_part_of_the_draw_searches");
+        for (auto &all : cands) {
+          for (int side = 0; side < 2 && !found; side++)
+            for (size_t L = all.size() - 1; L >= need && L < all.size() && !found; L--) {
+              std::string part = side == 0 ? all.substr(0, L) : all.substr(all.size() - L);
+              RefOut e2 = RefClient::get().gensalt(prefix, count, Bytes(part), (int)L, osz);
+              if (e2.bad) crash_exit("machinery", "refsrv");
+              if (e2.ok && e2.str == res) { exp = e2; found = true; stat("incidental_salt_from_part_of_the_draw"); }
+            }
+          if (found) break;
+        }
+      }
+    }
   }
   if (have_exp && !exp_fail) { if (exp.bad) crash_exit("machinery", ("refsrv: " + exp.raw).c_str()); exp_fail = !exp.ok; }
 
@@ -1114,8 +1144,6 @@ static void exec_gensalt(Run &r, int t, int i, const J &op) {
     stat("probe_auto_entropy_calls");
     if (!failed) {
       const HashConf *hc = prefix.null ? nullptr : conf_for_prefix(prefix.b);
-      if (hc && !draws.empty() && (int)draws.back().bytes.size() < hc->nrbytes)
-        violation(nullptr, "entropy-draws", t, i, vfmt("%s drew %zu bytes for %s; hashes.conf says %d", kind.c_str(), draws.back().bytes.size(), hc->name.c_str(), hc->nrbytes));
       // repeated calls return different salts
       auto &v = tc.null_rbytes_results[(prefix.null ? std::string("<NULL>") : prefix.b) + "#" + std::to_string(count)];
       v.push_back(res);
@@ -1170,6 +1198,28 @@ static void exec_gensalt(Run &r, int t, int i, const J &op) {
     if (drawn_still_there)
       violation(nullptr, "entropy-not-erased", t, i, vfmt("the %zu random bytes drawn for %s are still in the library's buffer after it returned", d.bytes.size(), kind.c_str()));
   }
+#ifdef SIM_O0
+  // ... and from everywhere else: a tree may stage the draw in one buffer and hand a copy to the method, so the -O0 build
+  // also searches the stack region the call used for the drawn bytes themselves (8-byte windows).
+  if (rb.null && (r.o_c09 || r.o_c12) && !draws.empty() && draws.back().bytes.size() >= 8) {
+    PatSet dp; dp.build(draws.back().bytes);
+    size_t off; const char *enc = dp.empty() ? nullptr : dp.scan(dr.lo, (size_t)(dr.hi - dr.lo), &off);
+    stat("probe_drawn_bytes_stack_scans");
+    std::string pfx = prefix.null ? "NULL" : prefix.b;
+    if (failed && grb_reported_success) stat("drawn_bytes_stack_scans_failing_call_" + pfx);
+    // For the bcrypt and yescrypt-family generators a failing call leaves no copy of the draw on the unchanged tree
+    // (2165 / 127 / 126 such calls scanned); gensalt_sha_rn's callers do, so $1$/$5$/$6$ stay counters.
+    static const char *clean[] = {"$2a$", "$2b$", "$2x$", "$2y$", "$y$", "$gy$", "$7$"};
+    bool judged = false; for (const char *cp : clean) if (pfx == cp) judged = true;
+    if (enc && !strcmp(enc, "raw") && failed && grb_reported_success && judged)
+      violation(nullptr, "entropy-not-erased", t, i, vfmt("%s(%s) failed after a complete draw of %zu random bytes, and a copy of them is still in the stack region the call used (%zu bytes below the caller's frame)",
+                                                         kind.c_str(), pfx.c_str(), draws.back().bytes.size(), (size_t)(dr.hi - dr.lo) - off));
+    else if (enc && !strcmp(enc, "raw")) {
+      if (failed && grb_reported_success) stat("incidental_drawn_bytes_on_stack_after_failing_call_" + pfx);
+      else if (!failed) stat("incidental_drawn_bytes_on_stack_after_successful_call_" + pfx);
+    }
+  }
+#endif
   // allocation protocol of crypt_gensalt_ra
   if (kind == "gensalt_ra" && !failed) {
     const Block *b = MemLayer::get().find(ret);
@@ -1326,6 +1376,16 @@ static void exec_free_results(Run &r, int t, int i, const J &) {
 static void exec_scribble(Run &r, int t, int i, const J &op) {
   DataObj &o = r.tc[t].objs.at((size_t)op.i("obj"));
   std::string what = op.str("what", "garbage");
+  if (what == "appfields") {
+    // what crypt.h allows an application to do with the object at any time: use output/setting/input as it likes, set
+    // 'reserved' and 'initialized' to zero.  'internal' is not touched, so a key set with setkey_r must survive.
+    garbage_fill(o.cd->output, sizeof o.cd->output, (uint64_t)op.i("gseed") + 12); garbage_fill(o.cd->setting, sizeof o.cd->setting, (uint64_t)op.i("gseed") + 13);
+    garbage_fill(o.cd->input, sizeof o.cd->input, (uint64_t)op.i("gseed") + 14);
+    memset(o.cd->reserved, 0, sizeof o.cd->reserved); o.cd->initialized = 0;
+    o.state = "scribbled"; o.input_tainted = o.setting_tainted = o.output_tainted = false;
+    sig_add(r, "scribble:appfields"); ev(vfmt("scribble t%d op%d obj=%lld appfields", t, i, (long long)op.i("obj"))); stat("op_scribble_appfields");
+    return;
+  }
   if (what == "zero") memset(o.cd, 0, CD); else garbage_fill(o.cd, CD, (uint64_t)op.i("gseed") + 11);
   o.state = "scribbled"; o.key_state = what == "zero" ? (o.key_state ? 2 : 0) : 3; o.input_tainted = o.setting_tainted = o.output_tainted = false;
   sig_add(r, "scribble:" + what);
